@@ -3,4 +3,5 @@ import FtModel.Coiter
 import FtModel.Eq
 import FtModel.Point
 import FtModel.Populate
+import FtModel.Mutate
 import FtModel.Format
